@@ -8,7 +8,7 @@ From GV Require Import Model.Reuse Gen.FieldFx Gen.CallGraphTable.
 Import ListNotations.
 
 Lemma parser_fieldfx_ok :
-  fx_compat (ptable no_defects) pfield_name pop_methods pguard_r (fun _ _ => false) true parser_fields parser_fx = true.
+  fx_compat (ptable no_defects) pfield_name pop_methods pguard_r pguard_w true parser_fields parser_fx = true.
 Proof. vm_compute. reflexivity. Qed.
 
 Lemma tokenizer_fieldfx_ok :
